@@ -807,12 +807,19 @@ func mutants(args []string) int {
 	}
 	files, _ := filepath.Glob(filepath.Join(verifDir, "mutants", pattern+".patch"))
 	sort.Strings(files)
+	// the changes seeded by independent sub-agents are kept as seeded/<ID>-<name>/patch.diff and re-run the same way
+	seeded, _ := filepath.Glob(filepath.Join(verifDir, "seeded", pattern, "patch.diff"))
+	sort.Strings(seeded)
+	files = append(files, seeded...)
 	self, _ := os.Executable()
 	survived := 0
 	type row struct{ name, result string }
 	var rows []row
 	for _, f := range files {
 		name := strings.TrimSuffix(filepath.Base(f), ".patch")
+		if filepath.Base(f) == "patch.diff" {
+			name = filepath.Base(filepath.Dir(f))
+		}
 		id := name[:strings.IndexByte(name, '-')]
 		scratch, _ := os.MkdirTemp("/tmp", "verif-mutant-")
 		tmpDirs = append(tmpDirs, scratch)
@@ -849,7 +856,11 @@ func mutants(args []string) int {
 		default:
 			survived++
 		}
-		fmt.Printf("mutant %-40s %s\n", name, res)
+		kind := "mutant"
+		if filepath.Base(f) == "patch.diff" {
+			kind = "seeded"
+		}
+		fmt.Printf("%s %-40s %s\n", kind, name, res)
 		rows = append(rows, row{name, res})
 		os.RemoveAll(scratch)
 	}
